@@ -250,4 +250,6 @@ MUTANTS = [
  dict(id="C12", name="value_query_dispatched_from_reply_buffer", edits=[("src/cpp/ports-runtime.cpp", "    ports.dispatch(msg.data(), d, false);", "    ports.dispatch(buffer_with_port, d, false);")]),
  dict(id="C12", name="option_array_mapped_element_by_element", edits=[(PC, "            if(av[i].type == 'i' && !printable_symbol(av[i].val.i, meta))\n                return;", "            if(false)\n                return;")]),
  dict(id="C12", name="format_keywords_saved_as_bare_symbols", edits=[(PC, "        if(!strcmp(val, reserved[r]))\n            val = NULL;", "        if(false)\n            val = NULL;")]),
+ dict(id="C06", name="bundle_written_without_its_zero_word", edits=[(TL, "        ring_write(ring,msg,len+tail);", "        ring_write(ring,msg,len);")]),
+ dict(id="C06", name="bundle_read_without_its_zero_word", edits=[(TL, "    ring_read(ring, read_buffer, len+tail, lookahead);", "    ring_read(ring, read_buffer, len, lookahead);")]),
 ]
